@@ -265,3 +265,39 @@ Proof.
       * intros j [<-|Hj]; [split; [left; reflexivity|congruence]|].
         apply I2 in Hj. tauto.
 Qed.
+
+(* ---------------------------------------------------------------- "every id of [1, mx] is taken" *)
+Lemma ids_exhausted_intro m mx :
+  (forall k, (1 <= k <= mx)%N -> is_some (m_lookup m k) = true) -> ids_exhausted m mx = true.
+Proof.
+  intros H. unfold ids_exhausted.
+  assert (HA : forall i, In i (seq 1 (N.to_nat mx)) -> is_some (m_lookup m (N.of_nat i)) = true).
+  { intros i Hi. apply in_seq in Hi. apply H. lia. }
+  assert (HL : (mx <= N.of_nat (length m))%N).
+  { assert (Hn : length (map N.of_nat (seq 1 (N.to_nat mx))) <= length (map fst m)).
+    { apply NoDup_incl_length.
+      - apply FinFun.Injective_map_NoDup; [intros a b; apply Nat2N.inj|apply seq_NoDup].
+      - intros k Hk. apply in_map_iff in Hk. destruct Hk as (i & <- & Hi). apply HA in Hi.
+        destruct (m_lookup m (N.of_nat i)) as [h|] eqn:E; [|discriminate].
+        apply m_lookup_some_in in E. apply (in_map fst) in E. exact E. }
+    rewrite !map_length, seq_length in Hn. lia. }
+  destruct (N.leb_spec mx (N.of_nat (length m))); [|lia].
+  apply forallb_forall. exact HA.
+Qed.
+
+Lemma ids_exhausted_elim m mx : ids_exhausted m mx = true ->
+  forall k, (1 <= k <= mx)%N -> is_some (m_lookup m k) = true.
+Proof.
+  unfold ids_exhausted. destruct (mx <=? N.of_nat (length m))%N; [|discriminate].
+  intros H k Hk. rewrite forallb_forall in H.
+  specialize (H (N.to_nat k)). rewrite N2Nat.id in H. apply H. apply in_seq. lia.
+Qed.
+
+Lemma ids_exhausted_perm m1 m2 mx : Permutation m1 m2 -> NoDup (map fst m1) ->
+  ids_exhausted m1 mx = ids_exhausted m2 mx.
+Proof.
+  intros P W. unfold ids_exhausted. rewrite (Permutation_length P).
+  destruct (mx <=? N.of_nat (length m2))%N; [|reflexivity].
+  induction (seq 1 (N.to_nat mx)) as [|i l IH]; [reflexivity|].
+  cbn [forallb]. rewrite IH, (m_lookup_perm _ _ _ P W). reflexivity.
+Qed.
